@@ -9,11 +9,29 @@ package socket
 //@ sealed socket.Header => *socket.message
 //@ sealed socket.Body => *socket.message
 
-//@ spec fn freshMsg(m *message) bool = m.serviceMethod == "" && m.status == nil && m.body == nil && m.newBodyFunc == nil && m.ctx == nil && m.size == 0 && m.seq == 0 && m.mtype == 0 && m.bodyCodec == 0 && m.meta != nil && len(m.meta.args) == 0 && m.xferPipe != nil && len(m.xferPipe.filters) == 0
+// ---- C20: recycled messages behave like fresh ones -------------------------
 
+//@ spec fn freshMsg(m *message) bool = m.serviceMethod == "" && m.status == nil && m.body == nil && m.newBodyFunc == nil && m.ctx == nil && m.size == 0 && m.seq == 0 && m.mtype == 0 && m.bodyCodec == 0 && m.meta != nil && len(m.meta.args) == 0 && m.xferPipe != nil && len(m.xferPipe.filters) == 0
+//@ covers freshMsg socket.message @C20
+
+// A MessageSetting (user-extensible func type) touches only the message it is
+// applied to: its header fields, metadata container and filter pipe. Assumed for
+// arbitrary settings; the built-in With* settings are of this shape.
+//@ iface dynamic:socket.MessageSetting
+//@   params msg
+//@   let mm = as(msg, type(*message))
+//@   modifies mm.serviceMethod, mm.status, mm.body, mm.newBodyFunc, mm.ctx, mm.size, mm.seq, mm.mtype, mm.bodyCodec, fields(mm.meta), allelems(type(utils.argsKV)), allelems(type(byte)), fields(mm.xferPipe), allelems(type(xfer.XferFilter))
+
+// meta and xferPipe of a message are assigned once, by the constructor
+//@ writes (*message).meta only-in NewMessage @C20
+//@ writes (*message).xferPipe only-in NewMessage @C20
+
+// settings are applied to a message that is in the fresh state, on the
+// constructor path and on both recycling paths alike: Reset(s...) == fresh + s.
 //@ func (*message).doSetting
 //@   property C20
-//@   modifies all
+//@   requires[fresh-before-settings] freshMsg(m)
+//@   modifies m.serviceMethod, m.status, m.body, m.newBodyFunc, m.ctx, m.size, m.seq, m.mtype, m.bodyCodec, fields(m.meta), allelems(type(utils.argsKV)), allelems(type(byte)), fields(m.xferPipe), allelems(type(xfer.XferFilter))
 //@   ensures[noop-without-settings] len(settings) == 0 ==> unchanged()
 //@   loop 0: invariant[idx] $idx >= -1
 //@   loop 0: invariant[noop] len(settings) == 0 ==> unchanged()
@@ -21,14 +39,18 @@ package socket
 //@ func (*message).Reset
 //@   property C20
 //@   requires m.meta != nil && m.xferPipe != nil
+//@   modifies m.serviceMethod, m.status, m.body, m.newBodyFunc, m.ctx, m.size, m.seq, m.mtype, m.bodyCodec, fields(m.meta), allelems(type(utils.argsKV)), allelems(type(byte)), fields(m.xferPipe), allelems(type(xfer.XferFilter))
 //@   ensures[all-fields] len(settings) == 0 ==> freshMsg(m)
 //@   ensures[identity] len(settings) == 0 ==> m.meta == old(m.meta) && m.xferPipe == old(m.xferPipe)
 
 //@ func NewMessage
 //@   property C20
-//@   ensures[fresh] len(settings) == 0 ==> istype(result, type(*message)) && freshMsg(as(result, type(*message)))
+//@   modifies allelems(type(utils.argsKV)), allelems(type(byte)), allelems(type(xfer.XferFilter))
+//@   let rm = as(result, type(*message))
+//@   ensures[shape] istype(result, type(*message)) && fresh(rm) && fresh(rm.meta) && fresh(rm.xferPipe)
+//@   ensures[fresh] len(settings) == 0 ==> istype(result, type(*message)) && freshMsg(as(result, type(*message))) && fresh(as(result, type(*message)))
 
-//@ func init$1
+//@ func init$messagePool.New
 //@   property C20
 //@   ensures[pool-new-is-fresh] istype(result, type(*message)) && freshMsg(as(result, type(*message)))
 
@@ -39,3 +61,45 @@ package socket
 //@ func PutMessage
 //@   property C20
 //@   requires istype(m, type(*message)) && as(m, type(*message)).meta != nil && as(m, type(*message)).xferPipe != nil
+
+// ---- C20: pooled sockets ---------------------------------------------------
+
+// what a socket in the pool may still carry: nothing of its previous user
+//@ spec fn pooledSocketClean(s *socket) bool = s.Conn == nil && s.swap == nil && s.protocol == nil && s.fromPool
+
+//@ func (*socket).Close
+//@   property C20
+//@   ensures[pooled-socket-cleared] old(s.fromPool) && old(s.curState) != activeClose ==> pooledSocketClean(s)
+
+//@ func (*socket).SetID
+//@   property C20
+//@   modifies s.id, lockset
+//@   ensures[set] s.id == id
+
+// Reset(c, pf) leaves no trace of the previous user: id, swap, connection,
+// protocol (rebuilt from the arguments) – exactly what newSocket establishes.
+//@ func (*socket).Reset
+//@   property C20
+//@   ensures[id-cleared] s.id == ""
+//@   ensures[swap-cleared] s.swap == nil
+//@   ensures[conn-replaced] s.Conn == netConn
+//@   ensures[state-normal] s.curState == normal
+
+//@ func newSocket
+//@   property C20
+//@   ensures[fresh-socket] fresh(result) && result.id == "" && result.swap == nil && result.Conn == c && result.curState == normal && !result.fromPool && result.readerWithBuffer != nil
+
+//@ func init$socketPool.New
+//@   property C20
+//@   ensures[pool-new] istype(result, type(*socket)) && as(result, type(*socket)).readerWithBuffer != nil
+
+//@ func GetSocket
+//@   property C20
+//@   ensures[like-new] istype(result, type(*socket)) && as(result, type(*socket)).id == "" && as(result, type(*socket)).swap == nil && as(result, type(*socket)).Conn == c && as(result, type(*socket)).curState == normal
+
+// user-supplied connection and protocol constructors do not reach into the
+// framework's private state (assumption, listed in the evidence)
+//@ trusted TryOptimize
+//@   modifies nothing
+//@ trusted getProto
+//@   modifies nothing
